@@ -47,6 +47,21 @@ Theorem C29_message_context : forall ord req batches i c,
             c = match mmd m with [] => req | _ => (req ++ [restore (ord m)])%list end.
 Proof. exact message_context. Qed.
 
+(* Wire metadata already attached to the sender's context (an actor relaying while it handles an inbound
+   remote message) plays no part: the second hop restores what the propagator injected at the second send. *)
+Theorem C29_attached_metadata_ignored : forall a h, enrich a h = first_values h.
+Proof. exact enrich_ignores_attached. Qed.
+
+Theorem C29_relayed_send_restores_own_headers : forall ord req inbound id (h2 : hdr),
+  NoDup (map fst h2) ->
+  (forall p, In p h2 -> (exists v, snd p = [v]) /\ canon (fst p) = fst p) ->
+  Permutation (ord (send id h2)) (first_values h2) -> first_values h2 <> [] ->
+  exists got, relay_hop ord req inbound id h2 = (id, (req ++ [got])%list) /\
+              forall K v, lookup K got = Some v <-> In (K, [v]) h2.
+Proof. exact relay_full. Qed.
+
+Print Assumptions C29_attached_metadata_ignored.
+Print Assumptions C29_relayed_send_restores_own_headers.
 Print Assumptions C29_restored_is_canon_first_values.
 Print Assumptions C29_full.
 Print Assumptions C29_sound.
